@@ -1049,10 +1049,11 @@ def run (o : Opts) : Nat → Mach → Str → RunRes
     | .suspend m inp => .done m inp
     | .panic e => .panic e
 
-/-- generous fuel for `run` (un-consumed text is read twice) -/
+/-- fuel for `run`: 17 steps per unread or stashed character plus a constant (un-consumed text is
+read twice; same shape as the HTML tokenizer's bound, for which sufficiency is a theorem) -/
 def fuelFor (m : Mach) (inp : Str) : Nat :=
-  8 * (inp.length + m.tempBuf.length
-        + (match m.charRef with | some cr => (cr.nameBuf.getD []).length + 4 | none => 0)) + 32
+  17 * (inp.length + m.tempBuf.length
+        + (match m.charRef with | some cr => (cr.nameBuf.getD []).length + 2 | none => 0)) + 16
 
 /-- the BOM prologue of `XmlTokenizer::feed`: the flag is consumed by the first character ever seen -/
 def feedBom (m : Mach) (inp : Str) : Mach × Str :=
